@@ -99,6 +99,22 @@ def process_settings():
             len(warnings.filters), repr(warnings.filters[:3]), decimal.getcontext().prec)
 
 
+def arrayify(args, kwargs):
+    """the same call with every plain number handed over as a 0-d NumPy array and every list / tuple of numbers as a float64 array
+    (values read from files and headers arrive like that): such arguments are the caller's objects and must come back unchanged"""
+    def conv(a):
+        if isinstance(a, bool) or isinstance(a, str) or a is None:
+            return a
+        if isinstance(a, int):
+            return numpy.array(a)
+        if isinstance(a, float):
+            return numpy.array(a)
+        if isinstance(a, (list, tuple)) and a and all(isinstance(x, (int, float)) and not isinstance(x, bool) for x in a):
+            return numpy.array(a, dtype=float)
+        return a
+    return [conv(a) for a in args], {k: conv(v) for k, v in kwargs.items()}
+
+
 def observe(f, args, kwargs):
     """returns dict of observed effects for one recipe (process-wide settings are put back afterwards, so that every recipe is
     measured from the same state)"""
@@ -217,6 +233,14 @@ def property_checks(seed, deep):
             out.append(("equal arguments, different results: %s" % name, 1.0, 0.0))
         if obs.get("settings"):
             out.append(("process-wide numerical settings (floating-point error handling, print options, warning filters) changed: %s" % name, 1.0, 0.0))
+        # the same call with plain numbers handed over as 0-d arrays and number lists as arrays
+        a0_, k0_ = arrayify(args, kwargs)
+        if any(isinstance(x, numpy.ndarray) and not isinstance(y, numpy.ndarray) for x, y in zip(list(a0_) + list(k0_.values()), list(args) + list(kwargs.values()))) and name not in KNOWN:
+            o3 = observe(f, a0_, k0_)
+            if o3["writes"]:
+                out.append(("argument modified (numbers given as 0-d / 1-d arrays): %s" % name, 1.0, 0.0))
+            if o3["unrepeatable"]:
+                out.append(("equal arguments, different results (numbers given as 0-d / 1-d arrays): %s" % name, 1.0, 0.0))
         # the same call with the array arguments in another memory layout (column-major copies; every-other-element views): the
         # layout is not part of the value, so nothing may be written, aliased or changed in the result
         if any(isinstance(a, numpy.ndarray) for a in list(args) + list(kwargs.values())) and name not in KNOWN:
@@ -278,6 +302,23 @@ def property_checks(seed, deep):
             m2_ = numpy.array(cm_.make_covariance_matrix(), copy=True); r2_ = numpy.array(cm_.make_tomographic_reconstructor(svd_conditioning=1e-3), copy=True)
         out.append(("CovarianceMatrix: a second computation on the same object returns the same matrix and reconstructor (%s guide stars)" % ("natural" if alts_.max() == 0 else "mixed"),
                     0.0 if (numpy.array_equal(m1_, m2_, equal_nan=True) and numpy.array_equal(r1_, r2_, equal_nan=True)) else 1.0, 0.0))
+    # calls made at the same time from a thread pool return what they return one after the other (no module-level scratch state)
+    from aotools.turbulence import phasescreen as ps_, infinitephasescreen as ips_
+    from aotools import opticalpropagation as op_, fouriertransform as ft_
+    from aotools.functions import pupil as pupil_
+    from aotools.image_processing import centroiders as cen_
+    gt_ = numpy.random.default_rng(seed + 21)
+    flds = [gt_.normal(size=(32, 32)) + 1j * gt_.normal(size=(32, 32)) for _ in range(8)]
+    def _c(k):
+        tbl = [lambda: ps_.ft_sh_phase_screen(0.15, 32, 0.1, 30.0, 0.01, seed=numpy.random.default_rng(k)), lambda: ps_.ft_phase_screen(0.15, 32, 0.1, 30.0, 0.01, seed=numpy.random.default_rng(k)),
+               lambda: ft_.ft2(flds[k], 0.1), lambda: ft_.ift2(flds[k], 0.1), lambda: op_.angularSpectrum(flds[k], 1e-6, 1e-3, 2e-3, 5.0),
+               lambda: op_.oneStepFresnel(flds[k], 1e-6, 1e-3, 5.0), lambda: cen_.correlation_centroid(numpy.abs(flds[k]), numpy.abs(flds[0]), threshold=0.2),
+               lambda: pupil_.circle(5.0 + k, 32, (0.5 * k, -0.25 * k))]
+        return tbl[k % len(tbl)]
+    with warnings.catch_warnings():
+        warnings.simplefilter("ignore")
+        nb_ = common.threads_equal([_c(k) for k in range(8)] + [_c(0), _c(0), _c(2)], workers=8, repeats=3)
+    out.append(("library calls made at the same time from a thread pool return their sequential results", float(nb_), 0.0))
     # batch clauses
     from aotools import fouriertransform as ftm, interpolation as itp
     from aotools.image_processing import centroiders as cen
